@@ -20,10 +20,13 @@ func finishedState(s string) bool {
 func judgeC07(x scnResult, res *MonitorResult) {
 	openings, recorded, paid, spentBack := 0, false, false, false
 	crashedInBroadcast := false
+	walletErrAfter := false
 	final := ""
 	lastCrashIn := ""
 	for _, o := range x.w.obs {
 		switch o.Kind {
+		case "walleterr-after-broadcast":
+			walletErrAfter = true
 		case "broadcast":
 			switch o.A["tx"] {
 			case "opening":
@@ -52,6 +55,8 @@ func judgeC07(x scnResult, res *MonitorResult) {
 				cause := "no-record"
 				if crashedInBroadcast {
 					cause = "crash-between-broadcast-and-persist"
+				} else if walletErrAfter {
+					cause = "wallet-error-after-broadcast"
 				}
 				res.addFinding("C07/"+x.sc.role+"/opening-without-record/"+cause,
 					"an opening transaction was broadcast but the stored swap record does not contain it", map[string]interface{}{"scenario": scenarioKey(x.sc.steps)})
@@ -103,6 +108,8 @@ func judgeC07(x scnResult, res *MonitorResult) {
 		cause := "other"
 		if crashedInBroadcast {
 			cause = "crash-between-broadcast-and-persist"
+		} else if walletErrAfter && !recorded {
+			cause = "wallet-error-after-broadcast"
 		}
 		res.addFinding("C07/"+x.sc.role+"/finished-with-locked-funds/"+final+"/"+cause,
 			"swap finished in "+final+" although its opening transaction was neither paid for nor spent back", map[string]interface{}{"scenario": scenarioKey(x.sc.steps)})
@@ -308,6 +315,21 @@ func init() {
 					all = append(all, scn{role: role, steps: strings.Split("new outReceiver btc;fault opening down;crash 4;feepaid;crash 2;restart;restart;csv", ";")})
 				}
 			}
+			// the wallet adapter broadcasts and then reports an error (lwk fetches the raw transaction from the
+			// Electrum server after the broadcast)
+			for _, role := range rolesWanted {
+				if isTaker(role) {
+					continue
+				}
+				for _, chain := range []string{"btc", "lbtc"} {
+					base := baseScript(role, chain)
+					blocks := "blocks btc 1008"
+					if chain == "lbtc" {
+						blocks = "blocks lbtc 10080"
+					}
+					all = append(all, scn{role: role, steps: cat(base[:len(base)-2], []string{"fault opening-after down", base[len(base)-2], blocks, "csv", "restart", "csv"})})
+				}
+			}
 			all = append(all, sweepScenarios(rolesWanted)...)
 			for i := 0; i < n; i++ {
 				role := rolesWanted[r.intn(len(rolesWanted))]
@@ -354,13 +376,27 @@ func init() {
 		k := 0
 		for _, role := range []string{"inSender", "outReceiver"} {
 			for _, chain := range []string{"btc", "lbtc"} {
-				for _, path := range paths {
+				for pi, path := range paths {
 					k++
 					if k > n+8 {
 						return
 					}
 					cfg := defaultCfg()
 					cfg.PolicyFile = true
+					// other peers quarantined earlier: the list in the file is in the order of the quarantines, not sorted
+					var earlier []string
+					switch (pi + k) % 4 {
+					case 1:
+						earlier = []string{"03" + strings.Repeat("ff", 32)}
+					case 2:
+						earlier = []string{"02" + strings.Repeat("00", 31) + "01"}
+					case 3:
+						earlier = []string{"03" + strings.Repeat("ff", 32), "02" + strings.Repeat("00", 31) + "01", "03" + strings.Repeat("ee", 32)}
+					}
+					cfg.PolicyContent = "accept_all_peers=true\n"
+					for _, e := range earlier {
+						cfg.PolicyContent += "suspicious_peers=" + e + "\n"
+					}
 					steps := cat(restPrefixes(role, chain)[map[string]string{"inSender": "AwaitClaimPayment", "outReceiver": "AwaitClaimInvoicePayment"}[role]], path)
 					w, c, _ := runScenario(cfg, steps)
 					res.Evaluations++
@@ -376,6 +412,13 @@ func init() {
 					file, _ := os.ReadFile(w.policyPath)
 					if !w.pol.IsPeerSuspicious(peerNode) || !strings.Contains(string(file), "suspicious_peers="+peerNode) {
 						res.addFinding("C26/not-recorded", "peer not recorded as suspicious after a CSV refund", in)
+					}
+					in["quarantined_earlier"] = earlier
+					for _, e := range earlier {
+						res.Histogram["earlier quarantine checked"]++
+						if !w.pol.IsPeerSuspicious(e) {
+							res.addFinding("C26/earlier-quarantine-forgotten", "a peer quarantined earlier is no longer treated as suspicious after another peer was added", in)
+						}
 					}
 					// later requests
 					sentBefore := len(w.msgr.sent)
